@@ -220,9 +220,10 @@ class Db:
             pts = [th.point(tf, ap) for ap in a["ps"]]
             if a.get("bad"):
                 pts.append("not a point")
+            batch = pts if self.nops % 2 else iter(pts)        # a list or a plain iterable
             if via == "handle":
-                return target.insert_multiple(iter(pts))
-            return db.insert_multiple(iter(pts), **mk)
+                return target.insert_multiple(batch)
+            return db.insert_multiple(batch, **mk)
         if op == "remove":
             q = th.query(tf, a["q"], self.cache)
             return target.remove(q) if via == "handle" else db.remove(q, **mk)
